@@ -49,6 +49,30 @@ CHECKS = {
             rapid("scalar", "^TestC02Scalar$", 500000, 4, timeout=3000),
         ],
     },
+    "C10": {
+        "quick": [
+            plain("regress", "^TestRegressC10"),
+            plain("exhaustive", "^TestC10SinksExhaustive$"),
+            rapid("fields", "^TestC10Fields$", 8000, 3),
+            rapid("sinks", "^TestC10Sinks$", 15000, 1),
+        ],
+        "thorough": [
+            plain("regress", "^TestRegressC10"),
+            plain("exhaustive", "^TestC10SinksExhaustive$"),
+            rapid("fields", "^TestC10Fields$", 120000, 12, timeout=3000),
+            rapid("sinks", "^TestC10Sinks$", 200000, 4, timeout=3000),
+        ],
+    },
+    "C16": {
+        "quick": [
+            plain("regress", "^TestRegressC16"),
+            rapid("console", "^TestC16Console$", 10000, 4),
+        ],
+        "thorough": [
+            plain("regress", "^TestRegressC16"),
+            rapid("console", "^TestC16Console$", 150000, 16, timeout=3000),
+        ],
+    },
     "C17": {
         "quick": [
             plain("regress", "^TestRegressC17"),
@@ -66,9 +90,13 @@ CHECKS = {
     },
 }
 
-LEVELS = {}
+LEVELS = {"C10": "fault_enumeration"}
 
 RULES = {
+    "C01": "cases = EncoderConfig (keys empty/hostile/duplicate; built-in, nil, no-op and layout sub-encoders; line endings) x Entry (any int8 level, hostile zones, caller, stack) x 0-3 With rounds x call-site fields from typed Spec trees (all constructor families, zap.Any routing, nesting depth <= 3, failing marshalers, panicking/nil stringers and errors, unencodable reflected values). Non-trivial = has a nested marshaler, namespace, failing member, non-empty With context, nil/no-op/layout sub-encoder or hostile key. Distinct = distinct (config shape, field-kind multiset, depth, fault count, With rounds).",
+    "C02": "cases = as C01 with built-in/nil/no-op sub-encoders (D3), each Spec tree carrying its expected ordered tree; plus single-kind scalar batches over full ranges. Non-trivial = extreme numeric (NaN/Inf/uint64>2^63/min-max), invalid UTF-8, nesting depth >= 2 or a namespace inside a nested object (scalar job: time/duration/complex/float32 or extreme). Distinct = distinct (config shape, kind multiset, depth) resp. (kind, time encoder, duration encoder, ptr, any).",
+    "C10": "cases = (a) field trees with fault sites (marshaler errors before/between/after members, panicking or nil Stringer/error, nil elements, unencodable reflected values) drawn with 45% probability per container, logged through a tee of JSON, console and observer cores; (b) tees of 1-4 IO cores over multi-syncers of 1-3 scripted sinks plus custom failing cores, per-entry outcome vectors (ok/error/short+error/zero+error, Sync error), 1-6 entries, plain/delegating/nested tee; small shapes (<=2 cores x <=2 sinks x <=2 entries, 4 outcomes) enumerated exhaustively. Non-trivial = (a) >= 2 faults or a fault inside a nested container, (b) >= 2 destinations with a failing one before a healthy one. Distinct = distinct kind multisets+fault depth resp. distinct outcome matrices.",
+    "C16": "cases = C01's EncoderConfig x Entry x With-chain x fields through the console encoder. Non-trivial = at least one metadata column present and one omitted, and a non-empty context with a namespace or nested value. Distinct = distinct (column presence pattern, config shape, kind multiset).",
     "C17": "cases = generated op sequences (Write chunks over a newline-heavy alphabet incl. empty/lone-newline/long-run/raw-byte chunks, Sync at arbitrary positions, final Close) checked against a pending-line reference model, plus two independent partitions of one stream (metamorphic) and disabled/switching levels. Non-trivial = at least 2 writes with a line spanning a chunk boundary and an empty interior line (level job: additionally disabled or switched). Distinct = distinct (job, op-kind/chunk-class sequence) signatures.",
 }
 
@@ -83,6 +111,16 @@ ASSUMPTIONS = {
 TRUST = "Trusted base: Go toolchain/runtime, rapid's generators and shrinker, the reference model/oracle code in /verif/harness/props, and the standard-library packages used as reference implementations. Search-based: absence of a counterexample in the generated cases is not a proof."
 
 META = {
+    "C10": {
+        "technique": "property-based fault injection (rapid): fault sites generated inside Spec trees with exact expected output incl. <key>Error fields; scripted failing sinks/cores with per-entry outcome vectors; exhaustive enumeration of small sink topologies",
+        "level_text": "Fault sites (which marshaler/stringer/error/reflected value fails, where and how) and sink outcome vectors are the enumerated dimension: small sink topologies are enumerated completely, larger ones and all field-fault placements are sampled. Each run checks that the call returns, the entry reaches every JSON/console/observer destination exactly once, is well-formed, equals the reference tree (other fields intact, partial value, <key>Error with the injected text) and that the error output carries exactly one report per failing entry naming every failing destination.",
+        "level_note": TRUST + " Sync errors swallowed after entries above Error level are documented behaviour (issue 370) and not asserted; a sink that returns a short count with a nil error is outside the domain.",
+    },
+    "C16": {
+        "technique": "property-based testing (rapid): independent column renderer + Spec-derived context tree + differential against the JSON encoder",
+        "level_text": "For generated configs/entries/fields the console line must equal columns (computed independently from the documentation in the order time, level, name, caller, function, message, joined by the separator) + separator + one valid JSON object equal to the reference field tree and token-equal to the JSON encoder's output for the same fields + newline and stack + line ending. Exploration over an unbounded configuration/input space.",
+        "level_note": TRUST + " D7 (DESIGN.md): a separator is written between columns even if a column renders empty, and before message/context only when something was written before (documented by addSeparatorIfNecessary).",
+    },
     "C01": {
         "technique": "property-based testing (rapid): generated EncoderConfig x Entry x With-chain x field trees against a byte-level JSON validity predicate; differential logger-path vs direct encoder; coverage-guided fuzzing of the same property",
         "level_text": "Field trees (every constructor family, nesting to depth 3-4, namespaces inside nested objects/array elements, marshalers failing after a partial emit, panicking/nil stringers and errors, unencodable reflected values), hostile keys/strings and every combination of built-in, nil, no-op and layout sub-encoders are generated; each encoded entry must end with the configured line ending, contain no raw control byte, be valid UTF-8 and be accepted as exactly one object by a strict JSON parse; through a Logger the sink must see exactly one Write per entry with the same bytes. Exploration: the input space is unbounded, the oracle is a total validity predicate, so many small generated cases are the fitting evidence.",
